@@ -35,6 +35,10 @@ def check(ck):
     r18_1(ck)
     r18_2(ck)
     r18_3(ck)
+    from . import helpers as H
+    ck.rule('R18.4', 'get_in and assoc_path, with which a query is answered, keep their recursion skeleton')
+    H.get_in_shape(ck, 'R18.4')
+    H.assoc_path_shape(ck, 'R18.4')
 
 
 def tainted_names(f):
